@@ -30,6 +30,7 @@ KINDS = [
     ('padding ops, which exceeds the', 'pad_too_far'),
     ('segment failed', 'segment_eval'),
     ('segment ops must have a w-aligned', 'segment_unaligned'),
+    ('reserve must get a non-negative', 'reserve_negative'),
     ('reserve failed', 'reserve_eval'),
     ('reserve ops must have a w-aligned', 'reserve_unaligned'),
     ('Bad label swap', 'bad_label_swap'),
